@@ -748,8 +748,43 @@ class Processor:
         - `YAMLPathException` when the operation would destroy the entire
            document
         """
+        # Flatten virtual results (slices, collectors) down to the document
+        # nodes they wrap.
+        flat_nodes: List[NodeCoords] = []
+        pending_nodes: List[Any] = list(delete_nodes)
+        while pending_nodes:
+            pending_nc = pending_nodes.pop(0)
+            node = pending_nc.node
+            if (isinstance(node, list) and len(node) > 0
+                    and isinstance(node[0], NodeCoords)):
+                pending_nodes = list(node) + pending_nodes
+            elif isinstance(node, NodeCoords):
+                pending_nodes.insert(0, node)
+            else:
+                flat_nodes.append(pending_nc)
+
+        # Refuse to destroy the document before anything is deleted
+        for delete_nc in flat_nodes:
+            if not isinstance(delete_nc.parent, (
+                CommentedMap, dict, CommentedSeq, list, CommentedSet, set)
+            ):
+                # Edge-case:  Attempt to delete from a document which is
+                # entirely one Scalar value OR user is deleting the entire
+                # document.
+                raise NoDocumentYAMLPathException(
+                    "Refusing to delete the entire document!  Ensure the"
+                    " source document is YAML, JSON, or compatible and the"
+                    " target nodes do not include the document root.",
+                    str(delete_nc.path)
+                )
+
+        # Sequence elements are deleted last, once per matched position and
+        # from the end of each sequence, so no deletion shifts the position of
+        # another match.
+        seq_deletes: Dict[int, Any] = {}
+
         # pylint: disable=locally-disabled,too-many-nested-blocks
-        for delete_nc in reversed(delete_nodes):
+        for delete_nc in reversed(flat_nodes):
             node = delete_nc.node
             parent = delete_nc.parent
             parentref = delete_nc.parentref
@@ -762,11 +797,7 @@ class Processor:
                 data=delete_nc)
 
             # Ensure the reference exists before attempting to delete it
-            if isinstance(node, list) and isinstance(node[0], NodeCoords):
-                self._delete_nodes(node)
-            elif isinstance(node, NodeCoords):
-                self._delete_nodes([node])
-            elif isinstance(parent, (CommentedMap, dict)):
+            if isinstance(parent, (CommentedMap, dict)):
                 all_data = ancestry[0][0] if len(ancestry) > 0 else parent
                 all_anchors: Dict[str, Any] = {}
                 Anchors.scan_for_anchors(all_data, all_anchors)
@@ -775,6 +806,7 @@ class Processor:
                                 else None)
                 is_ymk_anchor = (
                     compare_node is not None
+                    and node is compare_node
                     and isinstance(compare_node, dict))
 
                 if (is_ymk_anchor
@@ -792,20 +824,20 @@ class Processor:
                 elif parentref in parent:
                     del parent[parentref]
             elif isinstance(parent, (CommentedSeq, list)):
-                if len(parent) > parentref:
-                    del parent[parentref]
+                if (isinstance(parentref, int)
+                    and -len(parent) <= parentref < len(parent)
+                    and parent[parentref] is node
+                ):
+                    seq_deletes.setdefault(
+                        id(parent), (parent, set()))[1].add(
+                            parentref % len(parent))
             elif isinstance(parent, (CommentedSet, set)):
-                parent.discard(parentref)
-            else:
-                # Edge-case:  Attempt to delete from a document which is
-                # entirely one Scalar value OR user is deleting the entire
-                # document.
-                raise NoDocumentYAMLPathException(
-                    "Refusing to delete the entire document!  Ensure the"
-                    " source document is YAML, JSON, or compatible and the"
-                    " target nodes do not include the document root.",
-                    str(delete_nc.path)
-                )
+                if parentref in parent:
+                    parent.discard(parentref)
+
+        for (parent, indexes) in seq_deletes.values():
+            for index in sorted(indexes, reverse=True):
+                del parent[index]
 
     # pylint: disable=locally-disabled,too-many-branches,too-many-locals
     def _get_nodes_by_path_segment(
